@@ -90,7 +90,21 @@ INT = {
         kani_value='''match &r { Ok(v) => { assert!(v.unsigned_abs() < b.unsigned_abs()); assert!(*v == 0 || ((*v < 0) == (a < 0))); }, Err(_) => {} }'''),
 }
 
+INT['abs'] = dict(doc='exact |a|; abs(MIN) is an error', verus='''ensures match r {
+            Ok(v) => self.0 != i64::MIN && v.0 as int == crate::vs::int_abs_spec(self.0 as int),
+            Err(_) => self.0 == i64::MIN,
+        }''')
+INT['from_usize'] = dict(doc='usize -> int exact or error', verus='''ensures match r {
+            Ok(v) => v.0 as int == int_v as int,
+            Err(_) => int_v as int > i64::MAX as int,
+        }''')
+INT['into_usize'] = dict(doc='int -> usize exact or error', verus='''ensures match r {
+            Ok(u) => self.0 >= 0 && u as int == self.0 as int,
+            Err(_) => self.0 < 0 || self.0 as int > usize::MAX as int,
+        }''')
+
 FLOAT = {
+    'abs': dict(doc='IEEE abs', verus='ensures r == crate::vs::f_abs(*self)'),
     'pow': dict(doc='IEEE pow of the two operands in order', verus='ensures r == crate::f_pow(*self, *exponent)'),
 }
 
